@@ -37,7 +37,7 @@ theorem reader_of_constructor (L : Libm K)
     o.ey = e * (L.sin Om * L.cos om + L.cos Om * L.sin om * L.cos inc) ∧
     o.ez = e * (L.sin om * L.sin inc) ∧ o.e = e := by
   obtain ⟨hchk, hPc⟩ := fromOrbit_ok L v G pr m a e inc Om om f P hP
-  obtain ⟨he, hd, hpos, hdpos⟩ := guard_denoms _ _ _ _ _ _ hchk ha hasym
+  obtain ⟨he, hd, hpos, hdpos⟩ := guard_denoms _ _ _ _ _ _ hchk (fun _ => ha) hasym
   have hv0 : 0 ≤ v0sq G pr.m m a e := by
     rw [v0sq_eq, div_div]; exact div_nonneg (le_of_lt hmu) (le_of_lt hpos)
   obtain ⟨hs0, hs2⟩ := hsqrt _ hv0
@@ -68,7 +68,7 @@ theorem reader_of_constructor (L : Libm K)
   · cases ho
   injection ho with ho
   subst ho
-  simp only [orbitBody, invariants, libm_sqrt, sc_hadd, sc_hsub, sc_hmul, sc_hdiv, sc_hneg, sc_neg, sc_one, two, sc_ofNat,
+  simp only [orbitBody, evec, invariants, libm_sqrt, sc_hadd, sc_hsub, sc_hmul, sc_hdiv, sc_hneg, sc_neg, sc_one, two, sc_ofNat,
     Nat.cast_ofNat, e7]
   have hsum : (P.x - pr.x) * (P.x - pr.x) + (P.y - pr.y) * (P.y - pr.y) + (P.z - pr.z) * (P.z - pr.z) = r * r := by
     linear_combination R1
